@@ -28,9 +28,9 @@ CONSTANTS StdNotifs,           \* the MessageMethod.NOTIFICATION_* names (genera
 
 Kinds == {"request", "notification"}
 CoreM == {"initialize", "ping", "toolsList", "resourcesList", "customOk"}      \* handler returns a response
-ToolM == {"toolsCallOk", "toolsCallRaises", "toolsCallNonsense", "toolsCallUnknown", "toolsCallUnhashable"}
-ResM  == {"resReadOk", "resReadRaises", "resReadUnknown"}
-CustM == {"customRaises", "customNonsense", "customNone"}
+ToolM == {"toolsCallOk", "toolsCallRaises", "toolsCallKeyError", "toolsCallNonsense", "toolsCallUnknown", "toolsCallUnhashable"}
+ResM  == {"resReadOk", "resReadRaises", "resReadKeyError", "resReadUnknown"}
+CustM == {"customRaises", "customKeyError", "customNonsense", "customNone"}
 Unreg == {"unregistered", "random"}
 \* standard notification names that the configured server registers:
 \* initialized (core, returns (None,None)), roots/list_changed (handler raises), message (handler answers)
@@ -57,15 +57,15 @@ Handler(m, p, k) ==
        ELSE IF m = "toolsCallUnknown" THEN "err2"
        ELSE IF m = "toolsCallUnhashable" THEN "raise"            \* `name in dict` with a list
        ELSE IF p \in {"argsNull", "argsList"} THEN "err3"        \* handler(**arguments) fails, caught by the tool wrapper
-       ELSE IF m = "toolsCallRaises" THEN "err3"
+       ELSE IF m \in {"toolsCallRaises", "toolsCallKeyError"} THEN "err3"
        ELSE "resp"                                               \* ok and nonsense (str()-formatted)
   ELSE IF m \in ResM THEN
        IF p = "wrongTypes" THEN "raise"                          \* uri is a list: unhashable
        ELSE IF p \in {"absent", "null", "empty"} THEN "err2"
        ELSE IF m = "resReadUnknown" THEN "err2"
-       ELSE IF m = "resReadRaises" THEN "err3"
+       ELSE IF m \in {"resReadRaises", "resReadKeyError"} THEN "err3"
        ELSE "resp"
-  ELSE IF m \in {"customRaises", "notifications/roots/list_changed"} THEN "raise"
+  ELSE IF m \in {"customRaises", "customKeyError", "notifications/roots/list_changed"} THEN "raise"
   ELSE IF m = "customNonsense" THEN "nonsense"
   ELSE "none"                                                    \* customNone, notifications/initialized
 
@@ -118,9 +118,9 @@ NoResponsePerNotification == Done /\ IsNotif => out.shape = "none"
 CodeTable ==
   Done /\ msg.kind = "request" /\ out.shape = "response" =>
     /\ (~Registered(msg.m) => out.iserr /\ out.code = 32601)
-    /\ (msg.m \in {"customRaises", "notifications/roots/list_changed"} => out.iserr /\ out.code = 32603)
-    /\ (msg.m = "toolsCallRaises" /\ msg.p = "ok" => out.iserr /\ out.code = 32603)
-    /\ (msg.m = "resReadRaises" /\ msg.p = "ok" => out.iserr /\ out.code = 32603)
+    /\ (msg.m \in {"customRaises", "customKeyError", "notifications/roots/list_changed"} => out.iserr /\ out.code = 32603)
+    /\ (msg.m \in {"toolsCallRaises", "toolsCallKeyError"} /\ msg.p = "ok" => out.iserr /\ out.code = 32603)
+    /\ (msg.m \in {"resReadRaises", "resReadKeyError"} /\ msg.p = "ok" => out.iserr /\ out.code = 32603)
     /\ (msg.m = "toolsCallUnknown" /\ NameKnown(msg.m, msg.p) => out.iserr /\ out.code = 32602)
     /\ (msg.m = "resReadUnknown" /\ msg.p \in {"ok", "argsNull", "argsList"} => out.iserr /\ out.code = 32602)
     /\ (msg.m \in {"ping", "toolsList", "resourcesList", "customOk"} => ~out.iserr)
